@@ -136,7 +136,43 @@ def gen_passive(rng, sid):
     return {"id": sid, "cluster": cluster, "ops": ops}
 
 
+def gen_clientroute(rng, sid):
+    """every key maps to the same owner from any member AND from a cluster client, also while a partition's owners list has several
+    entries: a member has joined and is listed last (the owner) behind the previous owner that still holds the data (no balancer
+    pass yet); a cluster client created at that moment has to route where the members route"""
+    import dmaplib
+    d = "c13r%d" % sid
+    n = rng.choice([1, 2])
+    keys = [dmaplib.hx("%s-k%03d" % (d, i)) for i in range(120)]
+    ops = [{"op": "put", "c": "emb%d" % rng.randrange(n), "d": d, "k": k, "v": dmaplib.hx("v")} for k in keys]
+    ops += [{"op": "clientroute", "d": d, "ks": keys}, {"op": "join"}, {"op": "push"}, {"op": "waitsame"}, {"op": "clientroute", "d": d, "ks": keys}]
+    for m in range(n + 1):
+        ops.append({"op": "balance", "m": m})
+    ops += [{"op": "waitstable", "ms": 30000}, {"op": "clientroute", "d": d, "ks": keys}]
+    cluster = {"members": n, "replicas": 1, "partitions": rng.choice([7, 13, 31]), "table": 4096, "evict_workers": 1,
+               "balancer_ms": 3600000, "push_ms": 3600000}
+    return {"id": sid, "cluster": cluster, "ops": ops, "_kind": "clientroute"}
+
+
 def judge_passive(sc, obs):
+    if sc.get("_kind") == "clientroute":
+        if len(obs) < len(sc["ops"]):
+            return ("env", "scenario aborted")
+        seen_multi = 0
+        for i, (op, ob) in enumerate(zip(sc["ops"], obs)):
+            r = str(ob.get("r"))
+            if op["op"] in ("join", "waitsame", "waitstable", "put", "push") and r != "ok":
+                return ("env", "%s: %s" % (op["op"], r))
+            if op["op"] == "clientroute":
+                if r != "ok":
+                    return ("env", r)
+                seen_multi += ob.get("multi_owner_keys", 0)
+                if ob.get("diffs"):
+                    x = ob["diffs"][0]
+                    return (i, "key %s: member %s routes to %s, a cluster client created now routes to %s / %s (owners list of the partition has %s entries); %d keys differ" % (
+                        bytes.fromhex(x["k"]).decode(), x.get("member"), x.get("member_owner"), x.get("client"), x.get("client_by_part"), x.get("owners"), len(ob["diffs"])))
+        sc["_multi"] = seen_multi
+        return None
     if len(obs) < len(sc["ops"]):
         return ("env", "scenario aborted")
     for i, (op, ob) in enumerate(zip(sc["ops"], obs)):
@@ -154,6 +190,7 @@ def judge_passive(sc, obs):
 def passive_part(res):
     import memberlib
     scs = [gen_passive(vlib.rng_for(res.seed, PID, "passive", j), 60000 + j) for j in range(2 if res.tier == "quick" else 8)]
+    scs += [gen_clientroute(vlib.rng_for(res.seed, PID, "clientroute", j), 61000 + j) for j in range(2 if res.tier == "quick" else 8)]
     results = memberlib.run_membership(scs, jobs=4)
     bad = env = 0
     for sc in scs:
@@ -176,9 +213,14 @@ def passive_part(res):
                     break
             if again:
                 bad += 1
-                res.violation({"kind": "impl-violates-property", "part": "passive", "cluster": sc["cluster"], "scenario": {"ops": sc["ops"]},
+                res.violation({"kind": "impl-violates-property", "part": "passive", "cluster": sc["cluster"], "scenario": {"ops": sc["ops"], "_kind": sc.get("_kind")},
                                "failed_step": again[1][0], "impl_trace": again[0]["obs"][max(0, again[1][0] - 2):again[1][0] + 1],
-                               "predicate": {"name": "the routing table settles by itself", "verdict": again[1][1]}, "seed": res.seed})
+                               "predicate": {"name": "members and cluster clients route every key to the same owner" if sc.get("_kind") == "clientroute" else "the routing table settles by itself", "verdict": again[1][1]}, "seed": res.seed})
+    res.coverage["client_routes_with_several_owners"] = {
+        "scenarios": sum(1 for sc in scs if sc.get("_kind") == "clientroute"), "keys_in_partitions_with_several_owners": sum(sc.get("_multi", 0) for sc in scs),
+        "rule": "1-2 members with 120 keys, a member joins, the new table is pushed, no balancer pass: the owners lists of the moved partitions name the "
+                "previous owner first and the new owner last; a cluster client created at that moment (smartPick and clientByPartID) and every member "
+                "must route every key to the same member; again before the join and after the migration"}
     res.coverage["passive_settling"] = {"scenarios": len(scs), "environment": env, "failures": bad,
                                         "rule": "3 members with data, the start-up coordinator stops, a member joins; push interval 400 ms, balancer 300 ms, "
                                                 "the harness only watches: one owner per partition, no departed member listed, within 30 s"}
@@ -458,7 +500,7 @@ def replay_passive(res, obj, path):
     ok, out = vlib.harness_build()
     if not ok:
         raise vlib.CheckError(out)
-    sc = {"id": 0, "cluster": obj["cluster"], "ops": obj["scenario"]["ops"]}
+    sc = {"id": 0, "cluster": obj["cluster"], "ops": obj["scenario"]["ops"], "_kind": obj["scenario"].get("_kind")}
     for attempt in range(3):
         r = memberlib.run_membership([sc])[0]
         v = None if r.get("env", {}).get("error") else judge_passive(sc, r["obs"])
